@@ -208,9 +208,17 @@ def location_choice(prog, chk):
         ("start_loc",): [("closest_loc", "start_el")],
         ("end_loc",): [("closest_loc", "end_el")],
     }
+    if not found:
+        # the `X_loc.is_none()` tests on locals named start_loc / end_loc are not there to read (the end points are
+        # carried in a struct, the cases are a `match`): which chooser runs in which case is not decided
+        chk.undecided("A15.location-choice", "cases", fe.where(), "the missing-location cases of from_element are not written as `if start_loc.is_none() ..` over locals of those names")
+        return
     for k, v in want.items():
         got = [g for kk, g in found.items() if kk == k]
         ok = any(v[0] in g for g in got)
+        if not got:
+            chk.undecided("A15.location-choice", "+".join(k), fe.where(), f"no branch for the case {k} found in a readable form")
+            continue
         chk.ob(ok, "A15.location-choice", "+".join(k), fe.where(), f"when {' and '.join(k)} {'are' if len(k) > 1 else 'is'} not given: {v[0][0]}({v[0][1]}, ..)", f"missing-location case {k} is wired as {got} (expected {v})")
 
 
@@ -315,6 +323,11 @@ def routes(prog, chk):
                 comp = {f["name"] for f in hirq.exprs(arm["body"], "Field") if f["name"] in ("0", "1") and hirq.field_chain(f) and "origin" in hirq.field_chain(f)}
                 want = ({"min"}, {"Sub"}) if d in ("Left", "Up") else ({"max"}, {"Add"})
                 wcomp = {"0"} if d in HORZ else {"1"}
+                if not meths or not ops or not comp:
+                    # the turn-around coordinate is computed somewhere else (a helper): which side it lies on is not
+                    # readable from this arm
+                    chk.undecided("A15.rectilinear", key + ":u-side", where, f"the U-turn coordinate of the {d}-{d} route is not computed in the arm itself (min/max: {sorted(meths)}, +/-: {sorted(ops)}, component: {sorted(comp)})")
+                    continue
                 chk.ob((meths, ops) == want and comp == wcomp, "A15.rectilinear", key + ":u-side", where, f"a {d}-{d} route turns beyond the {'smaller' if d in ('Left', 'Up') else 'larger'} {'x' if d in HORZ else 'y'} of the two endpoints", f"U-route for {d}: uses {sorted(meths)} {sorted(ops)} on components {sorted(comp)} (expected {want}, {wcomp})")
     chk.floor("A15.rectilinear", n, 8, "corner route arm")
 
@@ -342,7 +355,13 @@ def axis_lines(prog, chk):
                     if k:
                         pairs[k] = locs
         ok = pairs.get(fixed + "1") == pairs.get(fixed + "2") == ["midpoint"] and pairs.get(("x" if fixed == "y" else "y") + "1") != pairs.get(("x" if fixed == "y" else "y") + "2")
-        chk.ob(ok, "A15.axis-line", name + ":parallel", rd.where(), f"a {name.lower()} connector has {fixed}1 = {fixed}2 = the overlap midpoint", f"{name} connector coordinates are {pairs}")
+        if not all(k_ in pairs for k_ in ("x1", "y1", "x2", "y2")):
+            # the <line> is not built from a literal list of (attribute, value) pairs in this arm (a helper builds it):
+            # the coordinates are decided by the evaluated site connector-axis (A17)
+            chk.undecided("A15.axis-line", name + ":parallel", rd.where(), f"the {name.lower()} connector's coordinates are not written as literal (attribute, value) pairs in the arm ({sorted(pairs)}); decided by the A17 site connector-axis")
+            ok = None
+        if ok is not None:
+          chk.ob(ok, "A15.axis-line", name + ":parallel", rd.where(), f"a {name.lower()} connector has {fixed}1 = {fixed}2 = the overlap midpoint", f"{name} connector coordinates are {pairs}")
         # overlap: max of the mins, min of the maxes
         got = {}
         for mc in hirq.exprs(arm, "MethodCall"):
